@@ -111,7 +111,23 @@ def r2(ctx):
                 fail_edges.add((bi, tr if neg else f))
         writes = [(bi, t) for bi, t in b.calls() if (t.callee() or "").startswith("crate::kbucket::bucket::KBucket::") and
                   t.callee().split("::")[-1] in ("insert", "update_value")]
-        if not fail_edges or not writes:
+        # the filter's verdict may also be stored in a flag variable and tested later (`passed = table_filter.filter(..); if !passed {..}`)
+        verdict_calls = {}
+        verdict_tmps = set()
+        for bi, t in b.calls():
+            if any(short(n_).endswith("kbucket::filter::Filter::filter") or n_.endswith("kbucket::filter::Filter::filter") for n_ in t.names()) and \
+                    "table_filter" in fmt_short(prov.operand(t.args[0])) and t.dest.is_local():
+                if t.dest.local in fe.index:
+                    verdict_calls[bi] = t.dest.local
+                else:
+                    verdict_tmps.add(t.dest.local)
+        verdict_moves = {}     # block -> flag local assigned from a verdict temporary
+        for blk in b.blocks:
+            for s_ in blk.stmts:
+                if s_.k == "a" and s_.lhs.is_local() and s_.lhs.local in fe.index and s_.rv.k == "use" and s_.rv.ops[0].place is not None and \
+                        s_.rv.ops[0].place.is_local() and s_.rv.ops[0].place.local in verdict_tmps:
+                    verdict_moves[blk.idx] = s_.lhs.local
+        if not (fail_edges or verdict_calls or verdict_moves) or not writes:
             raise AnchorError("%s: table filter test or bucket writes not found" % fn)
 
         # the table filter may be skipped only for an unchanged value (or when no filter is configured)
@@ -149,15 +165,41 @@ def r2(ctx):
         okset = set(pass_true + none_edges + unchanged)
 
         def transfer(bidx, st):
-            vals, failed, okk = st
+            vals, failed, okk, holds = st
+            before = vals
             vals = fe.apply_stmts(bidx, vals)
+            # a flag overwritten with a constant no longer holds the filter's verdict
+            holds = frozenset(l for l in holds if vals[fe.index[l]] == before[fe.index[l]] and vals[fe.index[l]] is None)
+            if bidx in verdict_moves:
+                l = verdict_moves[bidx]
+                v2 = list(vals)
+                v2[fe.index[l]] = None
+                vals = tuple(v2)
+                holds = holds | {l}
             t = b.blocks[bidx].term
             if t.k == "ret":
-                yield None, (vals, failed, okk)
+                yield None, (vals, failed, okk, holds)
+                return
+            if bidx in verdict_calls:
+                l = verdict_calls[bidx]
+                v2 = list(vals)
+                v2[fe.index[l]] = None
+                yield t.target, (tuple(v2), failed, okk, holds | {l})
+                return
+            sf = fe.switch_flag(bidx)
+            if sf is not None and sf[0] in holds:
+                l, neg = sf
+                f_t = [tb for v, tb in t.vals if v == 0]
+                for s_ in t.succs():
+                    is_false_edge = s_ in f_t
+                    verdict = (not is_false_edge) != neg      # value of the flag on this edge
+                    v2 = list(vals)
+                    v2[fe.index[l]] = verdict
+                    yield s_, (tuple(v2), failed or not verdict, okk or verdict, holds - {l})
                 return
             for s_ in fe.successors(bidx, vals):
-                yield s_, (vals, failed or ((bidx, s_) in fail_edges), okk or ((bidx, s_) in okset))
-        states, exits, parent = propagate(b, (fe.initial(), False, False), transfer)
+                yield s_, (vals, failed or ((bidx, s_) in fail_edges), okk or ((bidx, s_) in okset), holds)
+        states, exits, parent = propagate(b, (fe.initial(), False, False, frozenset()), transfer)
         for bi, t in writes:
             bad = [st for st in states.get(bi, ()) if not st[2]]
             rule.check(not bad, "%s: KBucket::%s only after the table filter accepted the value, the value is unchanged, or no table filter is set" % (
@@ -207,8 +249,13 @@ def r2(ctx):
                     f, tr = g.bool_edges(bi)
                     unchanged.append((bi, tr))
             pass_edges += unchanged
-        if not pass_edges or not writes:
-            raise AnchorError("KBucket::%s: filter test or node writes not found" % fn)
+        if not writes:
+            raise AnchorError("KBucket::%s: node writes not found" % fn)
+        if not pass_edges:
+            rule.fail("KBucket::%s|unfiltered-write" % fn, "KBucket::%s adds a %s to the bucket and never consults the bucket filter (a pending node was filtered against the "
+                      "bucket as it was when it became pending; other members may have changed since)" % (fn, kind) if fn == "apply_pending" else
+                      "KBucket::%s adds a %s to the bucket and never consults the bucket filter" % (fn, kind), loc=b.loc(b.line))
+            continue
         r = b.reachable(0, removed_edges=pass_edges + no_filter_edges)
         bad = [bi for bi, _ in writes if bi in r]
         rule.check(not bad, "KBucket::%s writes into nodes only past the bucket filter (or when no filter is set)" % fn,
